@@ -61,6 +61,57 @@ let run_M caseno tk =
   let tr = map_transcript ity (nat_of_int lay) pv pat (nat_of_int ctor) es ss dpv idxs in
   Printf.printf "M %d %s\n" caseno (pr_transcript ["ext"; "span"; "st"; "strides"; "fl"; "mfl"; "sz"; "emp"; "mext"; "mst"; "rk"; "sext"; "offs"] tr)
 
+(* mapping value tokens: ity layout pv R pat*R ctor e*R [s*R | dpv] *)
+let read_mval tk =
+  let ity = ity_of_nat (nat_of_int (next_int tk)) in
+  let lay = next_int tk in
+  let pv = opt_of_tok (next tk) in
+  let r = next_int tk in
+  let pat = take_n tk r (fun tk -> opt_of_tok (next tk)) in
+  let ctor = next_int tk in
+  let es = take_n tk r next_z in
+  let ss = if lay = 2 then take_n tk r next_z else [] in
+  let dpv = if ctor = 2 then next_z tk else Z0 in
+  ({ mv_t = ity; mv_lay = nat_of_int lay; mv_pv = pv; mv_pat = pat; mv_ctor = nat_of_int ctor; mv_vals = es; mv_ss = ss; mv_dpv = dpv }, r)
+let read_points tk r =
+  let nidx = next_int tk in
+  if nidx < 0 then None else Some (take_n tk nidx (fun tk -> take_n tk r next_z))
+
+(* family V: prog kind ... *)
+let run_V caseno tk =
+  let _prog = next_int tk in
+  let kind = next_int tk in
+  if kind = 0 then begin
+    let (sv, r) = read_mval tk in
+    let tt = ity_of_nat (nat_of_int (next_int tk)) in
+    let lay = next_int tk in
+    let pv = opt_of_tok (next tk) in
+    let r2 = next_int tk in
+    let pat = take_n tk r2 (fun tk -> opt_of_tok (next tk)) in
+    let tgt = { mt_t = tt; mt_pat = pat; mt_kind = lkind_of_nat (nat_of_int lay); mt_pv = pv } in
+    let idxs = read_points tk r in
+    Printf.printf "V %d %s\n" caseno (pr_transcript ["ext"; "span"; "st"; "offs"; "soffs"; "eqts"; "nets"; "eqst"; "nest"; "cp"; "rt"] (v_conv sv tgt idxs))
+  end else begin
+    let (av, ra) = read_mval tk in
+    let (bv, _) = read_mval tk in
+    let idxs = if tk.p < Array.length tk.a then read_points tk ra else Some [] in
+    Printf.printf "V %d %s\n" caseno (pr_transcript ["eq"; "ne"; "exteq"; "aext"; "aspan"; "ast"; "bext"; "bspan"; "bst"; "aoffs"; "boffs"] (v_cmp av bv idxs))
+  end
+
+(* family K: prog <src mapping tokens> <tgt type tokens> *)
+let read_mtype tk =
+  let tt = ity_of_nat (nat_of_int (next_int tk)) in
+  let lay = next_int tk in
+  let pv = opt_of_tok (next tk) in
+  let r2 = next_int tk in
+  let pat = take_n tk r2 (fun tk -> opt_of_tok (next tk)) in
+  { mt_t = tt; mt_pat = pat; mt_kind = lkind_of_nat (nat_of_int lay); mt_pv = pv }
+let run_K caseno tk =
+  let _prog = next_int tk in
+  let (sv, _) = read_mval tk in
+  let tgt = read_mtype tk in
+  Printf.printf "K %d %s\n" caseno (pr_transcript ["ab"; "abn"; "ext"] (k_dbgconv sv tgt))
+
 (* family X: prog kind ... *)
 let run_X caseno tk =
   let _prog = next_int tk in
@@ -97,6 +148,8 @@ let () =
          (match a.(0) with
           | "M" -> run_M !caseno tk
           | "X" -> run_X !caseno tk
+          | "V" -> run_V !caseno tk
+          | "K" -> run_K !caseno tk
           | f -> Printf.printf "%s %d unknown-family\n" f !caseno);
          incr caseno
        end
